@@ -220,7 +220,7 @@ class BasicContiguousVector<cntgs::Options<Option...>, Parameter...>
 
     void clear() noexcept
     {
-        destruct();
+        destruct_if_owned();
         locator_->resize(0, memory_begin());
     }
 
@@ -473,7 +473,7 @@ class BasicContiguousVector<cntgs::Options<Option...>, Parameter...>
 
     constexpr void steal(BasicContiguousVector&& other) noexcept
     {
-        destruct();
+        destruct_if_owned();
         max_element_count_ = other.max_element_count_;
         memory_ = std::move(other.memory_);
         locator_ = std::move(other.locator_);
@@ -502,7 +502,7 @@ class BasicContiguousVector<cntgs::Options<Option...>, Parameter...>
                         other.locator_,           other.memory_begin(),
                         other.max_element_count_, reinterpret_cast<std::byte*>(new_memory.get()),
                         other.max_element_count_, get_allocator()};
-                    destruct();
+                    destruct_if_owned();
                     BasicContiguousVector::insert_into(*other_locator, other.max_element_count_, new_memory, other);
                     memory_ = std::move(new_memory);
                     locator_ = std::move(other_locator);
@@ -512,7 +512,7 @@ class BasicContiguousVector<cntgs::Options<Option...>, Parameter...>
                     ElementLocatorAndFixedSizes other_locator{other.locator_,           other.memory_begin(),
                                                               other.max_element_count_, memory_begin(),
                                                               other.max_element_count_, get_allocator()};
-                    destruct();
+                    destruct_if_owned();
                     BasicContiguousVector::insert_into(*other_locator, other.max_element_count_, memory_, other);
                     locator_ = std::move(other_locator);
                 }
@@ -531,7 +531,7 @@ class BasicContiguousVector<cntgs::Options<Option...>, Parameter...>
 
     void copy_assign(const BasicContiguousVector& other)
     {
-        destruct();
+        destruct_if_owned();
         memory_ = other.memory_;
         ElementLocatorAndFixedSizes other_locator{other.locator_, other.memory_begin(),     other.max_element_count_,
                                                   memory_begin(), other.max_element_count_, get_allocator()};
